@@ -1,5 +1,5 @@
 """C05 SM2 public-key encryption round-trips and conforms to GB/T 32918.4"""
-from ..prov import Prov, norm
+from ..prov import Prov, norm, last
 from ..builder import Canon, branch_sequences, preimage
 from .. import frame as FR, rules_g as G
 
@@ -124,10 +124,17 @@ _run0 = run
 def zero_check(cx, fn, P, cn, inst, want_kdf):
     """the all-zero test that precedes the xor is applied to the KDF output t (not to the message / plaintext)"""
     its = []
-    for b in FR.calls_of(fn, 'next'):
-        a = FR.arg_canon(fn, P, cn, b, 0)
-        if a.startswith('into_iter(') and 'Range::Range' not in a.split('kdf(')[0]:
-            its.append(a)
+    from ..prov import strip as _strip, norm as _norm2
+    for b, t_ in fn.calls():
+        if t_['fn']['k'] != 'def' or last(t_['fn']['name']) not in ('next', 'all', 'any') or not t_['args']:
+            continue
+        e = _strip(_norm2(P.operand(t_['args'][0], b, len(fn.blocks[b]['stmts']))))
+        # the scanned collection: strip the iterator adapters (a `for` loop, `.iter().all(..)`, `.iter().any(..)`)
+        while e.k == 'call' and last(e.name) in ('into_iter', 'iter', 'by_ref') and e.args:
+            e = _strip(e.args[0])
+        a = cn.c(e)
+        if 'kdf(' in a and 'Range::Range' not in a.split('kdf(')[0]:
+            its.append('into_iter(%s)' % a)
     ok = any(a == 'into_iter(%s)' % want_kdf for a in its)
     cx.add('F-ZERO-CHECK', inst, ok, 'the zero test iterates over the KDF output: %s' % [FR.short(a, 120) for a in its], fn.loc())
 
